@@ -218,6 +218,7 @@ static void run(int tier, int prog) {
   MV_CHECK(m.state == 0, "mutex state %ld at the end", (long)m.state);
   MV_CHECK(c0.sleep_q->head == 0 && c1.sleep_q->head == 0, "a thread is still queued on a condition variable at the end");
   mv_obs("fam=%d consumed=%d sum=%d turn=%d", cur->fam, consumed_n, consumed_sum, turn);
+  h_cond_epilogue(&c0, (prog >> 1) & 1); h_cond_epilogue(&c1, prog & 1); h_mutex_epilogue(&m, prog & 1);
   mv_finish();
 }
 static const char * const cover_names[] = { "producer_waited", "consumer_waited", "gate_waited", "turn_waited", "stray_waiter_blocked", "sem_consumer_waited", "bbb_waited", 0 };
